@@ -126,10 +126,11 @@ func forEachBlock(thorough bool, emit func(block)) {
 		{ch: "query", style: "pct"}, {ch: "query", style: "plus"}, {ch: "query", style: "sloppy"},
 		{ch: "header"}, {ch: "cookie", style: "semi-sp"},
 		{ch: "urlenc", style: "pct"}, {ch: "urlenc", style: "plus"}, {ch: "urlenc", style: "sloppy"},
-		{ch: "multipart"}, {ch: "multipart", style: "file"},
+		{ch: "multipart"}, {ch: "multipart", style: "file"}, {ch: "multipart", style: "tok"}, {ch: "multipart", style: "file-tok"},
 		{ch: "json", style: "min"}, {ch: "json", style: "u"},
 		{ch: "xmlattr", style: "min"}, {ch: "xmlattr", style: "ref"},
-		{ch: "xmltext", style: "min"}, {ch: "xmltext", style: "ref"},
+		{ch: "xmltext", style: "min"}, {ch: "xmltext", style: "ref"}, {ch: "xmltext", style: "cdata"},
+		{ch: "json", style: "list"}, {ch: "json", style: "literal"},
 	}
 	secondary := []combo{
 		{ch: "urlenc", style: "pct", ctype: "charset"}, {ch: "urlenc", style: "pct", ctype: "charset-nospace"},
@@ -149,8 +150,16 @@ func forEachBlock(thorough bool, emit func(block)) {
 		for _, n := range namesOf(cb.ch, nameMax) {
 			it := Item{Name: n}
 			style := cb.style
-			if cb.ch == "multipart" && cb.style == "file" {
+			switch {
+			case cb.ch == "multipart" && cb.style == "file":
 				it.Kind, style = "F", ""
+			case cb.ch == "multipart" && cb.style == "file-tok":
+				it.Kind, style = "F", "tok"
+			case cb.ch == "json" && cb.style == "list":
+				it.Kind, style = "l", "min"
+			case cb.ch == "json" && cb.style == "literal":
+				it.Kind, style = "r", "min"
+				vals = []string{"0", "12", "-1.5e3", "1E400", "true", "false"}
 			}
 			emit(block{tmpl: Case{Chan: cb.ch, Style: style, CType: cb.ctype, Set: cb.set, Items: []Item{it}}, vals: [][]string{vals}})
 		}
@@ -187,7 +196,8 @@ func forEachBlock(thorough bool, emit func(block)) {
 	bodyLimits := []Setting{{}, {BodyLimit: 9, BodyAction: "Reject"}, {BodyLimit: 9, BodyAction: "ProcessPartial"}}
 	jsonNames := append(items("a", "A", "", "a.a", "A.a", "%41", "\\u0041"),
 		Item{Name: "a", Sub: "a", Kind: "n"}, Item{Name: "A", Sub: "a", Kind: "n"}, Item{Name: "a", Sub: "", Kind: "n"},
-		Item{Name: "a", Sub: "a.a", Kind: "n"}, Item{Name: "a.a", Sub: "a", Kind: "n"}, Item{Name: "", Sub: "a", Kind: "n"})
+		Item{Name: "a", Sub: "a.a", Kind: "n"}, Item{Name: "a.a", Sub: "a", Kind: "n"}, Item{Name: "", Sub: "a", Kind: "n"},
+		Item{Name: "a", Kind: "l"}, Item{Name: "a.0", Kind: ""}, Item{Name: "a", Sub: "0", Kind: "n"})
 	mpNames := append(items("a", "A", "", "%41", "a\""),
 		Item{Name: "a", Kind: "F"}, Item{Name: "A", Kind: "F"}, Item{Name: "", Kind: "F"})
 	fams := []fam{
@@ -198,6 +208,7 @@ func forEachBlock(thorough bool, emit func(block)) {
 		{cb: combo{ch: "cookie", style: "semi-sp"}, names: tokNames, vals: wireVals, vals3: wireVals3},
 		{cb: combo{ch: "cookie", style: "semi"}, names: tokNames, vals: wireVals, vals3: wireVals3},
 		{cb: combo{ch: "cookie", style: "multi"}, names: tokNames, vals: wireVals, vals3: wireVals3},
+		{cb: combo{ch: "cookie", style: "lower"}, names: tokNames, vals: wireVals3, vals3: wireVals3},
 		{cb: combo{ch: "urlenc", style: "pct"}, names: wireNames, vals: wireVals, vals3: wireVals3, limits: append(bodyLimits, Setting{Limit: 1})},
 		{cb: combo{ch: "urlenc", style: "plus"}, names: wireNames, vals: wireVals, vals3: wireVals3},
 		{cb: combo{ch: "urlenc", style: "sloppy"}, names: wireNames, vals: wireVals, vals3: wireVals3},
@@ -207,6 +218,8 @@ func forEachBlock(thorough bool, emit func(block)) {
 		{cb: combo{ch: "json", style: "u"}, names: jsonNames, vals: []string{"", "a", "\\u0041"}, vals3: []string{"a", "\\u0041"}},
 		{cb: combo{ch: "xmlattr", style: "min"}, names: items("a", "A"), vals: strs(symXML, 1), vals3: []string{"", "a", " a", "&amp;", "<"}},
 		{cb: combo{ch: "xmltext", style: "min"}, names: items("a", "A"), vals: strs(symXML, 1), vals3: []string{"", "a", " a", "&amp;", "<"}},
+		{cb: combo{ch: "multipart", style: "tok"}, names: mpNames, vals: wireVals3, vals3: wireVals3, fvals: []string{"a", "A", "a.a", "a\""}},
+		{cb: combo{ch: "xmltext", style: "cdata"}, names: items("a"), vals: strs(symXML, 1), vals3: []string{"a", "&amp;"}},
 		{cb: combo{ch: "xmlattr", style: "ref"}, names: items("a"), vals: strs(symXML, 1), vals3: []string{"a", "&amp;"}},
 		{cb: combo{ch: "xmltext", style: "ref"}, names: items("a"), vals: strs(symXML, 1), vals3: []string{"a", "&amp;"}},
 	}
@@ -257,6 +270,7 @@ func forEachBlock(thorough bool, emit func(block)) {
 	for _, p := range strs(symPath, max) {
 		emit(block{tmpl: Case{Chan: "path", Path: "/" + p, Items: []Item{}}, vals: nil})
 		emit(block{tmpl: Case{Chan: "path", Path: "/" + p + "?a=1", Items: []Item{}}, vals: nil})
+		emit(block{tmpl: Case{Chan: "path", Path: absPrefix + "/" + p + "?a=1", Items: []Item{}}, vals: nil})
 	}
 }
 
